@@ -194,6 +194,7 @@ class UndirectedWeightedGraph : private LabeledUndirectedGraph<EdgeWeight> {
                     if (i <= *j) {
                         totalWeight -= getEdgeLabel(i, *j, false);
                         --edgeNumber;
+                        edgeLabels.erase(orderedEdge(i, *j));
                     }
                     adjacencyList[i].erase(j++);
                 } else {
